@@ -19,7 +19,11 @@ SPEC = {
         "dict operations index / in / len / | (left) do not look at the frozen wrapper (pinned by the regenerated facts "
         "that pyFrozenList embeds pyList and redefines only IndexAssign / MarshalJSON); + with the frozen list on the "
         "right is the plain sum exactly when pyList.Operator has its pyFrozenList branch (regenerated fact "
-        "addAcceptsFrozen, C18_add_frozen_right; without it the sum fails); == differs from the unfrozen comparison only "
+        "addAcceptsFrozen, C18_add_frozen_right; without it the sum fails) and clips its RESULT like the plain branch "
+        "(regenerated fact addFrozenClipsResult, read from where slices.Clip sits in that branch): then the sum has no spare "
+        "capacity and every later + on it only extends the heap, so two values derived from one sum cannot overwrite each other "
+        "(C18_sum_with_frozen_then_add_never_writes, all states and lists); C18_witness_unclipped_sum shows the fact is necessary "
+        "(append(slices.Clip(l), …) gets growslice's capacity, modelled with the allocator's size classes); == differs from the unfrozen comparison only "
         "by the wrapper-type test; every builtin that the regenerated table marks as accepting frozen lists gets the "
         "same slice from the wrapper as from the plain list, every other one rejects it. The table itself "
         "(C18_table_today) is decided on the regenerated facts. map / filter / reduce / isinstance / % formatting are "
@@ -27,7 +31,7 @@ SPEC = {
     ),
     "technique": "finite regenerated table + one lifting lemma per assertion pattern (Lean) + differential local-vs-imported runs on the real interpreter",
     "trusted": [
-        "go/ast extractor harness/extract/c18 (setNativeCode table, per-function type assertions and pyFrozenList mentions, implementation of ==, the pyFrozenList branch of list +, the embedding and own methods of pyFrozenList)",
+        "go/ast extractor harness/extract/c18 (setNativeCode table, per-function type assertions and pyFrozenList mentions, implementation of ==, the pyFrozenList branch of list + and what each branch of Add returns (position of slices.Clip), the embedding and own methods of pyFrozenList)",
         "correspondence harness/cmd/c18 (asplib/c18.go): every application on locally defined and really subincluded values vs Driver/C18.lean",
         "modelled, not verified: Model/AspInterp.lean (builtins, asListFor, deepEq, sliceOp, unpack)",
         "class of a difference = the mechanism of the application that was run (named in the op line)",
@@ -51,4 +55,6 @@ After the repair b818e89 (list builtins go through asList):
  R4  builtins.go sorted: asList(args[0]) -> args[0].(pyList)   RED  4 theorems no longer check (C18_table_today, C18_builtins_transparent, C18_fixed_builtin_sample, ...),
                                                                    table row of sorted flips; 32 oracle failures of class native-builtin-asserts-pylist, which are reported as a
                                                                    concrete failing input as soon as known_findings.json lists the class as fixed (at the time of the run it was still "known")
+ S3  round-3 seed: objects.go list + with a pyFrozenList operand: slices.Clip(append(l, …)) -> append(slices.Clip(l), …)   first version MISSED it (no single application shows anything);
+     after the two-derived applications (x = L + X; y = x + [a]; z = x + [b]; look at y; also +=, *), the fact addFrozenClipsResult and the growslice model: RED, see commit message
 """
